@@ -134,6 +134,41 @@ func minimise(t *testing.T, plan *Plan, prop, sig string, budget int) *Plan {
 				cur = cand
 			}
 		}
+		// selectors: prefer the first credentials; presentation: prefer the plain one
+		if cur.Steps[i].G > 2 || cur.Steps[i].G < -1 {
+			for _, g := range []int{0, 1, 2} {
+				cand := clonePlan(cur)
+				cand.Steps[i].G = g
+				if try(cand) {
+					cur = cand
+					break
+				}
+			}
+		}
+		if cur.Steps[i].A != "" {
+			cand := clonePlan(cur)
+			cand.Steps[i].A = ""
+			if try(cand) {
+				cur = cand
+			}
+		}
+		if len(cur.Steps[i].S) > 0 {
+			cand := clonePlan(cur)
+			cand.Steps[i].S = nil // "run the first runnable task to completion"
+			if try(cand) {
+				cur = cand
+			}
+		}
+	}
+	// a second pass of single-step removal: simplified selectors often make more steps redundant
+	for i := 0; i < len(cur.Steps); {
+		cand := clonePlan(cur)
+		cand.Steps = append(append([]Step{}, cur.Steps[:i]...), cur.Steps[i+1:]...)
+		if len(cand.Steps) > 0 && try(cand) {
+			cur = cand
+		} else {
+			i++
+		}
 	}
 	// 3. simplify configuration knobs towards defaults
 	simplify := []func(k *Knobs){
@@ -318,7 +353,7 @@ func absorb(t *testing.T, job *Job, out *WorkerOut, found map[string]*Found, sta
 		found[v.Sig()] = f
 		mp, mres := plan, res
 		if job.Minimise {
-			mp = minimise(t, plan, v.Prop, v.Sig(), 250)
+			mp = minimise(t, plan, v.Prop, v.Sig(), 400)
 			mres = Execute(t, mp)
 			for _, mv := range mres.Violations {
 				if mv.Sig() == v.Sig() {
